@@ -20,6 +20,9 @@ import vlib  # noqa: E402
 
 
 BATCH = 400
+CASE_LIMIT = {}      # (pid or sub) -> seconds one case may take (default 240)
+MAX_HANGS = 6        # after that many cases that did not return, the remaining cases of the check are not run
+HANGS = [0]
 
 
 def run_cases(wc, pid, cases, timeout=900, sub=None, par=1):
@@ -43,11 +46,16 @@ def run_cases(wc, pid, cases, timeout=900, sub=None, par=1):
         return res
     obs = [None] * len(cases)
     start = 0
+    if HANGS[0] >= MAX_HANGS:
+        obs = ["HANG not run: %d earlier cases did not return" % HANGS[0]] * len(cases)
+        start = len(cases)
+    limit = CASE_LIMIT.get(sub or pid)
+    xenv = {"VERIF_CASE_LIMIT": str(limit)} if limit else None
     # the harness may die on a case (runtime fatal error): mark it CRASH and go on
     while start < len(cases):
         inp = "".join("%d %s\n" % (i, cases[i]) for i in range(start, len(cases)))
         try:
-            p = wc.run_harness(["run", hname], inp, timeout=timeout)
+            p = wc.run_harness(["run", hname], inp, timeout=timeout, extra_env=xenv)
             out, rc, err = p.stdout, p.returncode, p.stderr
         except Exception as e:  # timeout
             out = getattr(e, "stdout", None) or ""
@@ -67,6 +75,15 @@ def run_cases(wc, pid, cases, timeout=900, sub=None, par=1):
             last = max(last, i)
         if rc == 0 and last == len(cases) - 1:
             break
+        if rc == 3 and obs[last] is not None and obs[last].startswith("HANG"):
+            # the harness gave up on case `last` (reported) and exited: go on with the next one
+            start = last + 1
+            HANGS[0] += 1
+            if HANGS[0] >= MAX_HANGS:
+                for i in range(start, len(cases)):
+                    obs[i] = "HANG not run: %d earlier cases did not return" % HANGS[0]
+                break
+            continue
         bad = last + 1
         if bad >= len(cases):
             break
@@ -89,7 +106,12 @@ def run_cases(wc, pid, cases, timeout=900, sub=None, par=1):
             i = int(parts[0])
         except ValueError:
             continue
-        res[i] = (obs[i] if obs[i] is not None else "MISSING", parts[1], parts[2], parts[3] == "same")
+        o = obs[i] if obs[i] is not None else "MISSING"
+        if o.startswith("HANG"):
+            # no judge accepts a case that did not come back
+            res[i] = (o, parts[1], "the implementation did not return", False)
+            continue
+        res[i] = (o, parts[1], parts[2], parts[3] == "same")
     for i in range(len(cases)):
         if res[i] is None:
             res[i] = (obs[i] or "MISSING", "DRIVER-MISSING", "driver-missing", False)
@@ -158,14 +180,16 @@ def generic_t1(chk, wc, mod, tier, seed):
             if nfail > 3:
                 continue
             # known-finding matcher is evaluated on the shrunk case
-            if hasattr(mod, "shrink_candidates"):
+            if obs.startswith("HANG"):
+                small = c      # every candidate would wait for the limit again
+            elif hasattr(mod, "shrink_candidates"):
                 if bad_oracle:
                     small = shrink(wc, pid, c, mod.shrink_candidates, lambda r: r[2] != "ok", sub=sub)
                 else:
                     small = shrink(wc, pid, c, mod.shrink_candidates, lambda r: r[2] == "ok" and not r[3], sub=sub)
             else:
                 small = c
-            (o2, m2, or2, _s2) = run_cases(wc, pid, [small], sub=sub)[0]
+            (o2, m2, or2, _s2) = (obs, model, oracle, same) if obs.startswith("HANG") else run_cases(wc, pid, [small], sub=sub)[0]
             if or2 == "ok" and _s2:
                 # not reproduced on re-run (timing-dependent): report the failing run itself
                 small, o2, m2, or2 = c, obs, model, oracle
@@ -231,6 +255,7 @@ def main():
     ap.add_argument("--replay")
     a = ap.parse_args()
     mod = importlib.import_module("props." + a.pid.lower())
+    CASE_LIMIT.update(getattr(mod, "CASE_LIMIT", {}))
     if a.replay:
         sys.exit(replay(mod, a.replay))
     seed = vlib.seed_from_env()
